@@ -51,7 +51,8 @@ def run_main(args):
     old = signal.signal(signal.SIGALRM, _alarm)
     signal.setitimer(signal.ITIMER_REAL, WATCHDOG_S)
     try:
-        with pyh.quiet_stderr():
+        import contextlib, io
+        with pyh.quiet_stderr(), contextlib.redirect_stdout(io.StringIO()):
             prophyc.main(list(args))
         return ('ok', None)
     except _Timeout:
